@@ -3,7 +3,9 @@
 package flows
 
 import (
+	agglayertypes "github.com/agglayer/aggkit/agglayer/types"
 	"github.com/agglayer/aggkit/aggsender/types"
+	"github.com/agglayer/aggkit/bridgesync"
 )
 
 // VerifLimitCertSize exposes baseFlow.limitCertSize to the verification harness.
@@ -11,4 +13,10 @@ func VerifLimitCertSize(maxCertSize uint, log types.Logger,
 	p *types.CertificateBuildParams) (*types.CertificateBuildParams, error) {
 	f := &baseFlow{cfg: BaseFlowConfig{MaxCertSize: maxCertSize}, log: log}
 	return f.limitCertSize(p)
+}
+
+// VerifGetBridgeExits exposes baseFlow.getBridgeExits to the verification harness.
+func VerifGetBridgeExits(log types.Logger, bridges []bridgesync.Bridge) []*agglayertypes.BridgeExit {
+	f := &baseFlow{log: log}
+	return f.getBridgeExits(bridges)
 }
